@@ -39,6 +39,7 @@ def tasks(tier):
         ts.append(("badmethod", m, 3))
     ts.append(("lists", 3))
     ts.append(("narrow",))
+    ts.append(("justabove",))
     ts.append(("extreme",))
     ts.append(("long", 0)); ts.append(("long", 1)); ts.append(("long", 2))
     ts.append(("seq",))
@@ -107,6 +108,18 @@ def run_task(task, acc):
                         for s_, f_ in ((1.0, 2.0), (0.5, None)):
                             yield dict(x=x, suspect=s_, fail=f_, method=m, pre=[longer])
                             yield dict(x=x, suspect=s_, fail=f_, method=m, pre=[longer[:ln + 50], longer])
+        run_cases(acc, gen(), check_case)
+    elif kind == "justabove":
+        # differences a hair above / below / exactly on a threshold (all exact binary fractions): no tolerance band
+        def gen():
+            for T in (1.0, 1024.0, 2.0 ** -10, 3.0, 0.0):
+                hair = [T * (1 + 2.0 ** -20), T + 2.0 ** -30, T, T * (1 - 2.0 ** -20), T + T * 2.0 ** -17] if T else [2.0 ** -30, 2.0 ** -40, 0.0]
+                for m in METHODS:
+                    for s_, f_ in ((T, None), (None, T), (T, 2 * T if T else 1.0), (T / 2, T)):
+                        for a in hair:
+                            for b in hair:
+                                yield dict(x=[0.0, a, 0.0, b, 0.0], suspect=s_, fail=f_, method=m)
+                                yield dict(x=[5.0, 5.0 + a, 5.0, 5.0 - b, 5.0], suspect=s_, fail=f_, method=m)
         run_cases(acc, gen(), check_case)
     elif kind == "narrow":
         def gen():
